@@ -99,6 +99,11 @@ package routing
 //@   nonilcheck
 //@   dyncalls noeffect
 //@   modifies *
+// the expanded parameter list of a condition is built in storage of its own, starting empty: it never
+// shares the backing array of the list being read (appending expansions would overwrite unread values)
+//@   at call builtin:append#1 assert a0.$base == newParams.$base && len(a0) == len(newParams)
+//@   loop 2
+//@     entry newParams == nil
 
 // a condition with at least one parameter has at least one key group, so Apply lowers it to at least one
 // match set (a condition without parameters would silently vanish from the rule: Apply must refuse it)
@@ -109,3 +114,9 @@ package routing
 //@   loop 1
 //@     invariant $idx > 0 ==> len(keyOrder) > 0
 //@     invariant $idx == 0 ==> len(groups) == 0
+
+// C01 (pname condition): the comm key of a process name is its first 16 bytes - all 16, the kernel compares
+// the whole TASK_COMM_LEN array - and zero padding after a shorter name.
+//@ func toProcessName
+//@   ensures forall k int {procName[k]} :: 0 <= k && k < 16 && k < len(processName) ==> procName[k] == processName[k]
+//@   ensures forall k int {procName[k]} :: len(processName) <= k && k < 16 ==> procName[k] == 0
